@@ -502,6 +502,53 @@ var kindHashCtor = kind{name: "hash-constructors", setup: func(seed uint64) any 
 		}
 		return fmt.Sprint(c1.KeySize(), c2.KeySize(), c1.OID(), c2.OID()), nil
 	}},
+	{"sm2-internal-singleton", true, func(obj any, g, i int, seed uint64) (string, error) {
+		// sm2's internal curve singleton and sm2ec's precomputed tables through the key API
+		k := gen.Fill(gen.Mix(seed, 502, uint64(g), uint64(i)), 32)
+		k[0] &= 0x7f
+		priv, err := sm2.NewPrivateKey(k)
+		if err != nil {
+			return "", err
+		}
+		pub, err := sm2.NewPublicKey(elliptic.Marshal(sm2.P256(), priv.X, priv.Y))
+		if err != nil {
+			return "", err
+		}
+		sig, err := sm2.SignASN1(rnd(seed, g, i), priv, k, nil)
+		if err != nil {
+			return "", err
+		}
+		if !sm2.VerifyASN1(pub, k, sig) {
+			return "", fmt.Errorf("signature does not verify")
+		}
+		return hx(sig), nil
+	}},
+	{"sm9-internal-singleton", true, func(obj any, g, i int, seed uint64) (string, error) {
+		// bn256 generator tables through master key generation
+		a, err := sm9.GenerateSignMasterKey(rnd(seed, g, 2*i))
+		if err != nil {
+			return "", err
+		}
+		b, err := sm9.GenerateEncryptMasterKey(rnd(seed, g, 2*i+1))
+		if err != nil {
+			return "", err
+		}
+		return hx(a.PublicKey().Bytes()) + hx(b.PublicKey().Bytes()), nil
+	}},
+	{"ecdh-internal-singleton", true, func(obj any, g, i int, seed uint64) (string, error) {
+		k := gen.Fill(gen.Mix(seed, 503, uint64(g), uint64(i)), 32)
+		k[0] &= 0x7f
+		p, err := ecdh.P256().NewPrivateKey(k)
+		if err != nil {
+			return "", err
+		}
+		q, err := ecdh.P256().NewPublicKey(p.PublicKey().Bytes())
+		if err != nil {
+			return "", err
+		}
+		s, err := p.ECDH(q)
+		return hx(s), err
+	}},
 	{"curves", true, func(obj any, g, i int, seed uint64) (string, error) {
 		k := gen.Fill(gen.Mix(seed, 501, uint64(g), uint64(i)), 32)
 		x1, y1 := sm2.P256().ScalarBaseMult(k)
@@ -719,34 +766,61 @@ func runKind(t *testing.T, kindName string, quick, thorough int) {
 	h.Prop(t, h.P{Name: "concurrent-" + kindName, Quick: quick, Thorough: thorough}, genCase(kindName), checkConcurrent)
 }
 
-func TestC20_SM2Key(t *testing.T)      { runKind(t, "sm2-key", 150, 2500) }
-func TestC20_ECDHKey(t *testing.T)     { runKind(t, "ecdh-key", 200, 4000) }
-func TestC20_SM9SignKey(t *testing.T)  { runKind(t, "sm9-sign-key", 60, 800) }
-func TestC20_SM9EncKey(t *testing.T)   { runKind(t, "sm9-encrypt-key", 50, 700) }
-func TestC20_SM4(t *testing.T)         { runKind(t, "sm4-block-aead", 200, 4000) }
-func TestC20_HashCurves(t *testing.T)  { runKind(t, "hash-constructors", 200, 4000) }
-func TestC20_CertPool(t *testing.T)    { runKind(t, "cert-pool", 100, 1500) }
+func TestC20_SM2Key(t *testing.T)     { runKind(t, "sm2-key", 150, 2500) }
+func TestC20_ECDHKey(t *testing.T)    { runKind(t, "ecdh-key", 200, 4000) }
+func TestC20_SM9SignKey(t *testing.T) { runKind(t, "sm9-sign-key", 60, 800) }
+func TestC20_SM9EncKey(t *testing.T)  { runKind(t, "sm9-encrypt-key", 50, 700) }
+func TestC20_SM4(t *testing.T)        { runKind(t, "sm4-block-aead", 200, 4000) }
+func TestC20_HashCurves(t *testing.T) { runKind(t, "hash-constructors", 200, 4000) }
+func TestC20_CertPool(t *testing.T)   { runKind(t, "cert-pool", 100, 1500) }
 
-// TestC20_ColdSingletons touches every process-wide lazily initialised
-// singleton for the first time from many goroutines at once. The driver runs
-// each Test function in its own process, so they are cold here.
-func TestC20_ColdSingletons(t *testing.T) {
-	h.Sweep(t, h.P{Name: "cold-singletons"}, func(emit func(ccase)) {
-		// one case per process: the very first use; further cases exercise the warm path
-		for i := 0; i < h.Scale(8, 40); i++ {
-			ops := make([][]int, 16)
-			for g := range ops {
-				ops[g] = []int{2, 0, 1} // curves first
+// Cold-start tests: every process-wide lazily initialised singleton (curve
+// parameter singletons, precomputed generator tables) is touched for the first
+// time from 16 goroutines at once. The driver runs each Test function - and
+// each shard of it - in its own process, so the first case of each is a real
+// cold start; the shards multiply the number of cold starts.
+func coldTest(t *testing.T, name string, first []string) {
+	k := kindByName("hash-constructors")
+	idx := func(n string) int {
+		for i, o := range k.ops {
+			if o.name == n {
+				return i
 			}
-			emit(ccase{Kind: "hash-constructors", Procs: 16, Ops: ops, Seed: h.Seed + uint64(i)})
 		}
-		for _, kn := range []string{"sm9-sign-key", "sm9-encrypt-key", "sm2-key", "ecdh-key"} {
-			k := kindByName(kn)
+		panic("no op " + n)
+	}
+	h.Sweep(t, h.P{Name: "cold-" + name}, func(emit func(ccase)) {
+		// the first NShards cases are the cold start of each shard's process
+		for i := 0; i < h.NShards+h.Scale(3, 12); i++ {
 			ops := make([][]int, 16)
 			for g := range ops {
-				ops[g] = []int{g % len(k.ops)}
+				ops[g] = []int{idx(first[(g+i)%len(first)]), idx("sm3"), idx("curves")}
 			}
-			emit(ccase{Kind: kn, Procs: 16, Ops: ops, Seed: h.Seed})
+			emit(ccase{Kind: "hash-constructors", Procs: []int{16, 4, 2}[i%3], Ops: ops, Seed: h.Seed*1000 + uint64(i)})
+		}
+	}, checkConcurrent)
+}
+
+func TestC20_ColdCurves(t *testing.T) { coldTest(t, "curves", []string{"curves"}) }
+func TestC20_ColdSM2(t *testing.T)    { coldTest(t, "sm2", []string{"sm2-internal-singleton"}) }
+func TestC20_ColdSM9(t *testing.T)    { coldTest(t, "sm9", []string{"sm9-internal-singleton"}) }
+func TestC20_ColdECDH(t *testing.T)   { coldTest(t, "ecdh", []string{"ecdh-internal-singleton"}) }
+func TestC20_ColdMixed(t *testing.T) {
+	coldTest(t, "mixed", []string{"sm2-internal-singleton", "sm9-internal-singleton", "ecdh-internal-singleton", "curves", "pkcs-registry"})
+}
+
+// TestC20_ColdKeys: the per-object lazy caches, raced right at process start.
+func TestC20_ColdKeys(t *testing.T) {
+	h.Sweep(t, h.P{Name: "cold-keys"}, func(emit func(ccase)) {
+		for _, kn := range []string{"sm9-sign-key", "sm9-encrypt-key", "sm2-key", "ecdh-key", "cert-pool"} {
+			k := kindByName(kn)
+			for rep := 0; rep < h.NShards; rep++ {
+				ops := make([][]int, 16)
+				for g := range ops {
+					ops[g] = []int{(g + rep) % len(k.ops)}
+				}
+				emit(ccase{Kind: kn, Procs: 16, Ops: ops, Seed: h.Seed + uint64(rep)})
+			}
 		}
 	}, checkConcurrent)
 }
